@@ -92,7 +92,7 @@ class SemDiff:
         for st in config:
             m = re.match(r"SET batch_size TO (\d+)", st)
             if m:
-                return max(1, min(400, int(m.group(1))))
+                return max(1, min(2048, int(m.group(1))))
         return 400
 
     def model_rows(self, db, queries):
@@ -160,6 +160,8 @@ class SemDiff:
             keys = sort_keys[qi] if sort_keys else None
             if m[0] != "ok":
                 self.stats["model_err"] += 1
+                k = "model_err_" + str(m[1]).replace(" ", "_")[:30]
+                self.stats[k] = self.stats.get(k, 0) + 1
                 continue
             bad = None
             rejected = False
